@@ -151,6 +151,25 @@ def run(tier, seed):
     # renumber
     for i, (j, _) in enumerate(pairs):
         j["id"] = i + 1
+    # variants in which one node's first two parameters were exchanged by a single with_inputs() call
+    swapped = []
+    for j, tag in pairs[:: (3 if thorough else 9)]:
+        nodes = j["prog"]["nodes"]
+        for idx, nd in enumerate(nodes):
+            sw = gen.swap_params(nd)
+            if sw is not None:
+                a, b = nd["inputs"][0], nd["inputs"][1]
+                dpar = {p for x in nodes for p in x["defaults"]}
+                shared = {p for x in nodes if x is not nd for p in x["inputs"]}
+                if any(p in dpar and p in shared for p in (a, b)):
+                    continue      # a default literal belongs to the underlying parameter: swapping would make the defaults of a shared name inconsistent
+                j2 = gen.job(0, dict(j["prog"], nodes=nodes[:idx] + [sw] + nodes[idx + 1:]), j["provided"], mode=j["mode"],
+                             select=None if j["select"] == IR.UNSET else j["select"])
+                swapped.append((j2, tag + "/swap:" + nd["name"]))
+                break
+    pairs += swapped
+    for i, (j, _) in enumerate(pairs):
+        j["id"] = i + 1
     pairs += list(jobs_random(rng, 3000 if thorough else 400, len(pairs)))
     selftest(ctx, pairs[:1])
     evaluate(ctx, pairs)
